@@ -171,6 +171,9 @@ impl Run<'_> {
             ev["res"] = json!("panic");
             ev["panic"] = json!(m.chars().take(160).collect::<String>());
         }
+        // lexical class of the result string (the monitor has no string functions)
+        let r = ev["res"].as_str().unwrap_or("?");
+        ev["rc"] = json!(if r.starts_with("err") { "err" } else if r == "panic" { "panic" } else { "ok" });
         ev
     }
 }
@@ -290,6 +293,9 @@ impl DynWorld {
         let mut scan = vec![];
         let mut count = 0;
         let mut spans = Map::new();
+        for p in &self.table {
+            rres.insert(p.name.clone(), json!(false));
+        }
         if let Some(r) = &self.res {
             for p in &self.table {
                 rres.insert(p.name.clone(), json!(r.is_resident(&p.key)));
@@ -452,6 +458,7 @@ fn run_dyn(prog: &Value, out: &Emit) {
                 "reopen" => {
                     let m = s(op, "mode").to_string();
                     ev["res"] = json!(w.open(&m));
+                    ev["flen"] = json!(w.dlen());
                 }
                 "trunc" => {
                     // the archive loses its tail behind the container's back: close, cut, reopen in the same mode
@@ -620,7 +627,6 @@ fn run_static(prog: &Value, out: &Emit) {
                 ev["end"] = json!(dlen());
             }
             "sopen" => {
-                std::fs::create_dir_all(&store).expect("driver: mkdir");
                 ev["res"] = json!(unit(rt.block_on(sc.open())));
             }
             "snew" => {
@@ -705,17 +711,15 @@ impl HlWorld {
         e.copy_from_slice(&k16[..9]);
         format_content_key_path(&self.base, &e)
     }
-    /// symbolic place -> path: "trie" (the key's own trie path), "t:<key>" (another key's trie path),
+    /// symbolic place -> path: "trie" (the key's own trie path), "tk" (the trie path of key `dk`),
     /// "in" (inside the base, not a trie path), "out" (outside the base: a file of somebody else)
-    fn place(&self, k: &str, w: &str) -> PathBuf {
-        match w {
+    fn place(&self, k: &str, op: &Value, f: &str) -> PathBuf {
+        match s(op, f) {
             "trie" => self.trie(k),
+            "tk" => self.trie(s(op, "dk")),
             "in" => self.base.join("misc").join("in.bin"),
             "out" => self.root.join("outside").join("victim.bin"),
-            other => match other.strip_prefix("t:") {
-                Some(o) => self.trie(o),
-                None => panic!("driver: unknown place {other}"),
-            },
+            other => panic!("driver: unknown place {other}"),
         }
     }
     fn src(&self, n: &str) -> PathBuf {
@@ -752,18 +756,20 @@ impl HlWorld {
         for k in &self.keys {
             fs.insert(k.clone(), self.what(&self.trie(k)));
         }
-        let mut o = json!({"fs": fs, "in": self.what(&self.place("a", "in")), "out": self.what(&self.place("a", "out")),
+        let mut o = json!({"fs": fs, "in": self.what(&self.base.join("misc").join("in.bin")),
+                           "out": self.what(&self.root.join("outside").join("victim.bin")),
                            "s1": self.what(&self.src("s1")), "s2": self.what(&self.src("s2")),
                            "outd": fs_digest(&self.root.join("outside")), "sup": self.cont.is_supported()});
         if self.obsq {
-            let mut q = Map::new();
+            // in the order the queries are made (each one moves its key to the front of the cache)
+            let mut q = vec![];
             for k in &self.keys {
-                q.insert(k.clone(), json!(match self.rt.block_on(self.cont.query(&key16(k))) {
+                q.push(json!([k, match self.rt.block_on(self.cont.query(&key16(k))) {
                     Ok(b) => tf(b),
                     Err(e) => kind(&e),
-                }));
+                }]));
             }
-            o["q"] = Value::Object(q);
+            o["q"] = Value::Array(q);
         }
         o
     }
@@ -787,7 +793,8 @@ fn run_hl(prog: &Value, out: &Emit) {
                           obsq: prog.get("obsq").and_then(Value::as_bool).unwrap_or(true), next_filler: 0 };
     let opened = w.open(&mode0);
     let sup = if prog.get("probe").and_then(Value::as_bool).unwrap_or(true) { w.probe() } else { "false".into() };
-    out.ev(json!({"op": "new", "comp": "hl", "mode": mode0, "keys": keys, "obsq": w.obsq, "res": opened, "sup": sup, "fcap": 64}));
+    out.ev(json!({"op": "new", "comp": "hl", "mode": mode0, "keys": keys, "obsq": w.obsq, "res": opened, "sup": sup, "fcap": 64,
+                  "outd": fs_digest(&w.root.join("outside"))}));
     let mut run = Run { out, seq: 0 };
     for op in prog["ops"].as_array().expect("driver: ops") {
         let name_ = s(op, "op").to_string();
@@ -796,11 +803,11 @@ fn run_hl(prog: &Value, out: &Emit) {
             match name_.as_str() {
                 "probe" => ev["res"] = json!(w.probe()),
                 "create" => {
-                    let (src, dst) = (w.src(s(op, "src")), w.place(&k, s(op, "dst")));
+                    let (src, dst) = (w.src(s(op, "src")), w.place(&k, op, "dst"));
                     ev["res"] = json!(unit(w.cont.create_link(&key16(&k), &src, &dst)));
                 }
                 "rmfile" => {
-                    let p = w.place(&k, s(op, "path"));
+                    let p = w.place(&k, op, "path");
                     ev["res"] = json!(unit(w.cont.remove_file(&key16(&k), &p)));
                 }
                 "cremove" => ev["res"] = json!(unit(w.rt.block_on(w.cont.remove(&key16(&k))))),
@@ -837,6 +844,7 @@ fn run_hl(prog: &Value, out: &Emit) {
                 "xcreate" => {
                     let p = w.trie(&k);
                     std::fs::create_dir_all(p.parent().unwrap()).expect("driver: mkdir");
+                    let _ = std::fs::remove_file(&p); // a new file of its own, never a write through an existing link
                     std::fs::write(&p, b"x").expect("driver: write");
                     ev["res"] = json!("ok");
                 }
@@ -942,12 +950,12 @@ fn random_hl(rng: &mut Rng, len: usize) -> Value {
         let k = *rng.pick(&keys[..3]);
         let x = rng.below(100);
         let op = if x < 22 {
-            let dst = if rng.chance(3, 4) { "trie" } else { *rng.pick(&["in", "out", "t:b"]) };
-            let kk = if rng.chance(1, 12) { "z" } else if dst == "t:b" { "a" } else { k };
-            json!({"op": "create", "k": kk, "src": *rng.pick(&["s1", "s1", "s2", "missing"]), "dst": dst})
+            let dst = if rng.chance(3, 4) || !obsq { "trie" } else { *rng.pick(&["in", "out", "tk"]) };
+            let kk = if rng.chance(1, 12) { "z" } else if dst == "tk" { "a" } else { k };
+            json!({"op": "create", "k": kk, "src": *rng.pick(&["s1", "s1", "s2", "missing"]), "dst": dst, "dk": "b"})
         } else if x < 32 {
-            let path = if rng.chance(2, 3) { "trie" } else { *rng.pick(&["in", "out", "t:b"]) };
-            json!({"op": "rmfile", "k": if path == "t:b" { "a" } else { k }, "path": path})
+            let path = if rng.chance(2, 3) || !obsq { "trie" } else { *rng.pick(&["in", "out", "tk"]) };
+            json!({"op": "rmfile", "k": if path == "tk" { "a" } else { k }, "path": path, "dk": "b"})
         } else if x < 40 {
             json!({"op": "cremove", "k": k})
         } else if x < 46 {
